@@ -39,7 +39,7 @@ ASSUMPTIONS = [
 MANIFEST = {
     "level": LEVEL,
     "technique": "deterministic simulation: seeded histories of configuration derivations and runs over shared simulator objects (real selene and a fake back end), checked against a copy-on-derive record model",
-    "text": "Seeded exploration of histories (5-30 ops) over a growing tree of EmulatorInstance/EmulatorBuilder handles: every with_*/..._sim derivation, aliasing of simulator objects across handles, runs (some failing with EmulatorError, some hit by an injected transient loss of the emulator process in shot k) in between. After every op all public getters of all live handles must equal a pure per-handle record, and every run of a seeded handle must equal a direct run with fresh components built from the record and the handle's own earlier runs. Sampling, not proof.",
+    "text": "Seeded exploration of histories (5-30 ops) over a growing tree of EmulatorInstance/EmulatorBuilder handles: every with_*/..._sim derivation, aliasing of simulator objects across handles, runs (some failing with EmulatorError, some hit by an injected transient loss of the emulator process in shot k) in between. After every op all public getters of all live handles must equal a pure per-handle record, the arguments every fake-back-end run hands to selene must equal the record, and every run of a seeded handle must equal (type-sensitively) a direct run with fresh components built from the record and the handle's own earlier runs. Sampling, not proof.",
     "note": "Trusted: the record model, selene's documented seed-resolution rule (also exercised for real in the real-selene runs), the fixture programs, the fake back end (counts reported separately), the compat shim.",
     "design_ref": "DESIGN.md section 3 (C28)",
 }
